@@ -238,6 +238,14 @@ def h_migrate(ctx):
             ok_rerun = effective_rules(files2) == 'user'
     ctx.check('C15.csv_migration.%s.classifies_with_user_rules_now_or_after_rerun' % tag, ok_now or ok_rerun, 'property',
               meta={'effective_rules': eff, 'files': {k.split('/')[-1]: v for k, v in files.items()}})
+    # "at no point": re-running the command from ANY interrupted state in which it is offered again (the legacy CSV is still what is selected)
+    # must itself end classifying with the user's rules - also when the interrupted state was still fine
+    if ok_now and (state['crashed'] or result is False):
+        st2 = files.get(SETTINGS)
+        if (st2 is None or st2[1] == 'none') and files.get(CSV) == ('csv',):
+            fs3, r3, _ = run_migration(ctx, dict(files), 'none', 'rerun')
+            ctx.check('C15.csv_migration.%s.rerun_from_a_still_working_state_keeps_user_rules' % tag, effective_rules(fs3.files) == 'user', 'property',
+                      meta={'files_before_rerun': {k.split('/')[-1]: v for k, v in files.items()}, 'files_after': {k.split('/')[-1]: v for k, v in fs3.files.items()}})
     # (3) never an empty rule set while the rules exist on disk
     ctx.check('C15.csv_migration.%s.not_empty_while_rules_exist' % tag, not (eff in ('none', 'broken') and rules_on_disk(files)) or ok_now, 'property',
               meta={'effective_rules': eff, 'files': {k.split('/')[-1]: v for k, v in files.items()}})
